@@ -210,14 +210,21 @@ impl Property for C11 {
         }
     }
     fn required_classes(&self) -> Vec<&'static str> {
-        vec!["accepted", "rejected", "accepted-after-edit", "reads-device", "C-row", "declare", "shared-column", "rejected:duplicate", "rejected:header", "rejected:C-column", "rejected:read", "C-in-shared-column", "rejected:C-in-bidir-out-column"]
+        vec!["accepted", "rejected", "accepted-after-edit", "reads-device", "C-row", "declare", "shared-column", "rejected:duplicate", "rejected:header", "rejected:C-column", "rejected:read", "C-in-shared-column", "rejected:C-in-bidir-out-column", "text-without-final-newline"]
     }
     fn run(&self, s: &Streams) -> CaseOut {
         let mut out = CaseOut::new();
         out.owns_panics = true;
         let built = gen_case(&mut Ch::new(&s[0]), &fit_cfg());
-        let text = built_text(&built);
+        let mut text = built_text(&built);
         let mut ech = Ch::new(&s[2]);
+        // a third of the texts end without a line break behind their last line
+        if ech.chance(1, 3) {
+            while text.ends_with('\n') {
+                text.pop();
+            }
+            out.class("text-without-final-newline");
+        }
         let mut sigs = built.sigs.clone();
         let nedits = ech.weighted(&[3, 5, 3]);
         let mut log = vec![];
